@@ -83,7 +83,7 @@ def secrets(share_idx, lease_id, shared_cancel=False):
     return rs, cs
 
 
-def build_population(cfg, now, rng, tier):
+def build_population(cfg, now, rng, tier, shared_cancel_only=False):
     """Shares + chronological lease plan.  Renewal instants = threshold + delta, clipped to <= now."""
     thr = threshold(cfg, now)
     lo = now - 3 * YEAR + DAY
@@ -109,6 +109,15 @@ def build_population(cfg, now, rng, tier):
         return s
 
     kinds = ("immutable", "mutable")
+    if shared_cancel_only:
+        # two leases with different renew secrets but the same cancel secret (only a buggy or
+        # hostile client produces that): observed, never judged
+        for k in kinds:
+            if shared_cancel_only == "one-valid":
+                new(k, [-DAY, DAY], "shared-cancel-secret-one-valid", shared_cancel=True)
+            else:
+                new(k, [-YEAR, -DAY], "shared-cancel-secret-both-expired", shared_cancel=True)
+        return shares
     # one lease at every offset
     for k in kinds:
         for d in DELTAS:
@@ -137,9 +146,8 @@ def build_population(cfg, now, rng, tier):
         new(k, [-YEAR, -YEAR, -DAY], "first-of-three-renewed", renew=[(0, 1, "add_lease")])
         new(k, [-YEAR, -DAY, -1, -1, -1], "middle-of-five-renewed", renew=[(2, DAY, "renew_lease")])
         new(k, [-YEAR, -DAY], "both-renewed-still-expired", renew=[(0, -DAY, "renew_lease"), (1, -1, "add_lease")])
-        # zero leases (not judged), leases sharing a cancel secret (not judged)
+        # zero leases (generated, observed, not judged)
         new(k, [], "zero-leases")
-        new(k, [-DAY, DAY], "shared-cancel-secret", shared_cancel=True)
     # seeded random lease sets
     for _ in range(10 if tier == "quick" else 40):
         k = rng.choice(kinds)
@@ -212,12 +220,7 @@ def run(ck):
             d["cutoff_date"] = "now%+dd" % cfg["cutoff_rel_days"]
         return d
 
-    for ci, cfg in enumerate(cfgs):
-        if not ck.mine(ci):
-            continue
-        if ck.out_of_time():
-            complete = False
-            break
+    def one_config(ci, cfg, shared_only=False):
         now = cfg["now"]
         d = tempfile.mkdtemp(prefix="vf-")
         try:
@@ -230,7 +233,11 @@ def run(ck):
                                expiration_override_lease_duration=cfg["override"],
                                expiration_cutoff_date=cfg["cutoff"],
                                expiration_sharetypes=cfg["sharetypes"], clock=clock)
-            shares = build_population(cfg, now, ck.rng("pop", ci, ck.seed), ck.tier)
+            shares = build_population(cfg, now, ck.rng("pop", ci, ck.seed), ck.tier, shared_only)
+            if not cfg["enabled"] and ck.tier == "quick":
+                # nothing may ever be deleted here whatever the leases: a third of the population is enough
+                keep = [s for i, s in enumerate(shares) if i % 3 == ci % 3 or s.tag == "bucket-with-two-shares"]
+                shares = keep
             # ---- chronological lease plan on the virtual clock
             events = []
             for s in shares:
@@ -290,6 +297,7 @@ def run(ck):
             for s in shares:
                 if not present(ss, s):
                     raise AssertionError("workload error: share %d missing before the crawl" % s.idx)
+                s.gone = False
 
             # ---- cycles
             lc = ss.lease_checker
@@ -300,6 +308,9 @@ def run(ck):
                 try:
                     lc.start_slice()
                 except Exception as e:
+                    if shared_only:
+                        ck.observe("shared-cancel-secret-crawler-raises-" + type(e).__name__)
+                        break
                     ck.violation("lease-crawler-raises", "start_slice raised %s: %s" % (type(e).__name__, e),
                                  {"config": describe(cfg)})
                     break
@@ -311,7 +322,7 @@ def run(ck):
                 ck.hit("full-cycle-completed")
                 deleted_n = 0
                 for s in shares:
-                    if getattr(s, "gone", False):
+                    if s.gone:
                         continue
                     here = present(ss, s)
                     if not here:
@@ -380,15 +391,32 @@ def run(ck):
                 # crawler's own account of what it deleted (observation only)
                 try:
                     hist = lc.get_state()["history"][str(cycle_no)]["space-recovered"]
-                    if hist["actual-shares"] != deleted_n:
-                        ck.observe("space-recovered-actual-shares-differs-from-deleted-files")
-                    else:
+                    zero_counted = sum(1 for s in shares if not s.leases and not s.gone and cfg["enabled"])
+                    if hist["actual-shares"] == deleted_n:
                         ck.observe("space-recovered-actual-shares-matches")
+                    elif hist["actual-shares"] == deleted_n + zero_counted:
+                        ck.observe("space-recovered-counts-kept-zero-lease-shares-as-recovered")
+                    else:
+                        ck.observe("space-recovered-actual-shares-differs-from-deleted-files")
                 except Exception:
                     ck.observe("history-unavailable")
         finally:
             expirer_mod.time, lease_mod.time, crawler_mod.time = saved
             shutil.rmtree(d, ignore_errors=True)
+
+    for ci, cfg in enumerate(cfgs):
+        if not ck.mine(ci):
+            continue
+        if ck.out_of_time():
+            complete = False
+            break
+        one_config(ci, cfg)
+    # leases sharing a cancel secret: observation only (cancel_lease() removes every lease with that secret)
+    for ci, cfg in enumerate(cfgs):
+        if cfg["enabled"] and cfg["sharetypes"] == ("mutable", "immutable") and ck.mine(ci) and not ck.out_of_time() \
+                and (cfg["override"] in (None, 31 * DAY) if cfg["mode"] == "age" else cfg["cutoff_rel_days"] in (-31, 1)):
+            one_config(1000 + ci, cfg, shared_only="one-valid")
+            one_config(2000 + ci, cfg, shared_only="both-expired")
     ck.extra["configurations"] = {"total": len(cfgs), "complete": bool(complete)}
     ck.exhaustive = False      # configurations are enumerated completely, lease sets are structured + sampled
     ck.require_monitor("expiry-oracle", "survivor-data-oracle")
